@@ -267,3 +267,237 @@ ENC_HARNESSES = [
 def run_group(run, runner, group):
     for h, prefix, expect in group:
         runner.check(h, prefix, expect=expect)
+
+
+# ---- decoder: T2 (round trip, exact consumption), T5, T3 ----------------------------
+
+def _rest(m):
+    return m.blob("R", m.int("rl", 0, 1 << 40, small=3))
+
+
+def _at_rest(m, ob, stream, rest, written_len):
+    """the decoder stopped exactly where the suffix begins"""
+    if m.sym:
+        from vf.symex.models import SBytes
+        try:
+            m.prove(ob, stream.remaining().eq(rest), "decoder did not stop at the end of the value")
+        except Exception as e:
+            if "opaque" in str(e) or "structured" in str(e):
+                m.fail(ob, "decoder did not stop at the end of the value")
+            else:
+                raise
+    else:
+        m.prove(ob, stream.tell() == int(written_len), "decoder did not stop at the end of the value")
+
+
+def _wlen(b):
+    return b._sx_len() if hasattr(b, "_sx_len") else len(b)
+
+
+def _rt(m, wmeth, rmeth, v, ob, same):
+    out = m.out()
+    getattr(m.mod(ENC).BinaryEncoder(out), wmeth)(v)
+    w = out.getvalue()
+    rest = _rest(m)
+    stream = m.inp(w + rest)
+    r = getattr(m.mod(DEC).BinaryDecoder(stream), rmeth)()
+    m.prove(ob + ".value", same(r), "decoded value differs from the written one")
+    _at_rest(m, ob + ".consumed", stream, rest, _wlen(w))
+
+
+def h_rt_long(m):
+    n = m.int("n", *I64)
+    _rt(m, "write_long", "read_long", n, "long", lambda r: Z(r) == Z(n))
+
+
+def h_rt_int(m):
+    n = m.int("n", -(1 << 31), (1 << 31) - 1)
+    _rt(m, "write_int", "read_int", n, "int", lambda r: Z(r) == Z(n))
+
+
+def h_rt_counts(m):
+    n = m.int("n", 0, (1 << 31) - 1)
+    _rt(m, "write_enum", "read_enum", n, "enum_index", lambda r: Z(r) == Z(n))
+    _rt(m, "write_index", "read_index", n, "union_index", lambda r: Z(r) == Z(n))
+
+
+def h_rt_boolean(m):
+    d = m.bool("d")
+    _rt(m, "write_boolean", "read_boolean", d, "boolean", lambda r: Z(r) == Z(d))
+
+
+def _fbits(x):
+    return z3.fpToIEEEBV(Z(x))
+
+
+def h_rt_double(m):
+    x = m.f64("x")
+    _rt(m, "write_double", "read_double", x, "double", lambda r: _fbits(r) == _fbits(x))
+
+
+def h_rt_float(m):
+    x = m.f64("x")
+    m.assume(z3.Not(spec_f32_overflow(Z(x))))
+    want = z3.fpFPToFP(RNE, z3.fpFPToFP(RNE, Z(x), F32), F64)
+    _rt(m, "write_float", "read_float", x, "float", lambda r: z3.fpToIEEEBV(Z(r)) == z3.fpToIEEEBV(want))
+
+
+def h_rt_nan(m):
+    x = m.f64("x", nan=True)
+    m.assume(z3.fpIsNaN(Z(x)))
+    _rt(m, "write_double", "read_double", x, "double_nan", lambda r: z3.fpIsNaN(Z(r)))
+    _rt(m, "write_float", "read_float", x, "float_nan", lambda r: z3.fpIsNaN(Z(r)))
+
+
+def _same_bytes(m, a, b):
+    if m.sym:
+        from vf.symex.models import SBytes
+        try:
+            return SBytes.lift(a).eq(b)
+        except Exception as e:
+            if "opaque" in str(e) or "structured" in str(e):
+                return z3.BoolVal(False)
+            raise
+    return z3.BoolVal(bytes(a) == bytes(b))
+
+
+def h_rt_bytes(m):
+    n = m.int("n", 0, (1 << 62), small=5)
+    p = m.blob("P", n)
+    _rt(m, "write_bytes", "read_bytes", p, "bytes", lambda r: _same_bytes(m, r, p))
+
+
+def h_rt_utf8(m):
+    s = m.ostr("S")
+    _rt(m, "write_utf8", "read_utf8", s, "string",
+        lambda r: (r == s).e if m.sym else z3.BoolVal(r == s))
+
+
+def h_rt_fixed(m):
+    n = m.int("n", 0, 1 << 40, small=5)
+    p = m.blob("P", n)
+    out = m.out()
+    m.mod(ENC).BinaryEncoder(out).write_fixed(p)
+    w = out.getvalue()
+    rest = _rest(m)
+    stream = m.inp(w + rest)
+    r = m.mod(DEC).BinaryDecoder(stream).read_fixed(n)
+    m.prove("fixed.value", _same_bytes(m, r, p), "decoded value differs")
+    _at_rest(m, "fixed.consumed", stream, rest, _wlen(w))
+
+
+def _wellformed_varint(m, k):
+    """k symbolic bytes forming a well-formed base-128 number of k groups that fits 64 bits"""
+    bs = [m.byte(f"b{i}") for i in range(k)]
+    for i, b in enumerate(bs):
+        m.assume((Z(b) & 0x80) == (bv(0x80) if i < k - 1 else bv(0)))
+    if k == 10:
+        m.assume(Z(bs[9]) <= 1)
+    zz = bv(0)
+    for i, b in enumerate(bs):
+        zz = zz | ((Z(b) & 0x7F) << (7 * i))
+    return bs, zz
+
+
+def _mk_bytes(m, bs):
+    if m.sym:
+        from vf.symex.models import SBytes
+        return SBytes(list(bs))
+    return bytes(bs)
+
+
+def spec_unzigzag(zz):
+    """spec: even zz -> zz/2 ; odd zz -> -(zz+1)/2   (zz unsigned < 2^64, in BV WIDTH)"""
+    return z3.If((zz & 1) == 0, z3.LShR(zz, 1), -z3.LShR(zz + 1, 1))
+
+
+def h_dec_any_varint(m):
+    """T5: every well-formed varint of 1..10 groups (minimal or not) decodes to the
+    specification's value and the decoder stops after its last byte."""
+    k = m.choice("k", 1, 10)
+    bs, zz = _wellformed_varint(m, k)
+    rest = _rest(m)
+    stream = m.inp(_mk_bytes(m, bs) + rest)
+    r = m.mod(DEC).BinaryDecoder(stream).read_long()
+    m.prove("varint.value", Z(r) == spec_unzigzag(zz), "decoded varint differs from the specification")
+    _at_rest(m, "varint.consumed", stream, rest, k)
+
+
+def _must_raise(m, ob, fn, what):
+    try:
+        r = fn()
+    except Exception as e:
+        m.prove(ob, True)
+        return type(e).__name__
+    m.fail(ob, what)
+    return None
+
+
+def h_dec_prefix_varint(m):
+    """T3: a varint cut after j < k bytes (all continuation bits set so far) raises"""
+    j = m.choice("j", 0, 9)
+    bs = [m.byte(f"b{i}") for i in range(j)]
+    for b in bs:
+        m.assume((Z(b) & 0x80) == bv(0x80))
+    stream = m.inp(_mk_bytes(m, bs))
+    for meth in ("read_long",):
+        _must_raise(m, "prefix.varint", getattr(m.mod(DEC).BinaryDecoder(stream), meth),
+                    "truncated varint returned a value")
+
+
+def h_dec_prefix_fixedwidth(m):
+    for meth, width in (("read_boolean", 1), ("read_float", 4), ("read_double", 8)):
+        for j in range(width):
+            bs = [m.byte(f"{meth}{j}_{i}") for i in range(j)]
+            stream = m.inp(_mk_bytes(m, bs))
+            _must_raise(m, f"prefix.{meth}", getattr(m.mod(DEC).BinaryDecoder(stream), meth),
+                        f"{meth} on {j} bytes returned a value")
+
+
+def h_dec_prefix_bytes(m):
+    """payload shorter than announced (stream ends) -> raises, for bytes, utf8 and fixed"""
+    n = m.int("n", 1, 1 << 62, small=5)
+    c = m.int("c", 0, 1 << 62, small=4)
+    m.assume(Z(c) < Z(n))
+    out = m.out()
+    m.mod(ENC).BinaryEncoder(out).write_long(n)
+    short = m.blob("P", c)
+    for meth in ("read_bytes", "read_utf8"):
+        stream = m.inp(out.getvalue() + short)
+        _must_raise(m, f"prefix.{meth}", getattr(m.mod(DEC).BinaryDecoder(stream), meth),
+                    f"{meth} returned a value for a short payload")
+    stream = m.inp(short)
+    _must_raise(m, "prefix.read_fixed", lambda: m.mod(DEC).BinaryDecoder(stream).read_fixed(n),
+                "read_fixed returned a value for a short payload")
+
+
+def h_dec_negative_length(m):
+    n = m.int("n", -(1 << 63), -1)
+    out = m.out()
+    m.mod(ENC).BinaryEncoder(out).write_long(n)
+    stream = m.inp(out.getvalue() + _rest(m))
+    _must_raise(m, "negative_length.read_bytes", m.mod(DEC).BinaryDecoder(stream).read_bytes,
+                "read_bytes accepted a negative length")
+
+
+RT_HARNESSES = [
+    (h_rt_long, "rt", ["long.value", "long.consumed"]),
+    (h_rt_int, "rt", ["int.value", "int.consumed"]),
+    (h_rt_counts, "rt", ["enum_index.value", "union_index.value", "enum_index.consumed", "union_index.consumed"]),
+    (h_rt_boolean, "rt", ["boolean.value", "boolean.consumed"]),
+    (h_rt_double, "rt", ["double.value", "double.consumed"]),
+    (h_rt_float, "rt", ["float.value", "float.consumed"]),
+    (h_rt_nan, "rt", ["double_nan.value", "float_nan.value"]),
+    (h_rt_bytes, "rt", ["bytes.value", "bytes.consumed"]),
+    (h_rt_utf8, "rt", ["string.value", "string.consumed"]),
+    (h_rt_fixed, "rt", ["fixed.value", "fixed.consumed"]),
+]
+DEC_HARNESSES = [
+    (h_dec_any_varint, "dec", ["varint.value", "varint.consumed"]),
+    (h_dec_negative_length, "dec", ["negative_length.read_bytes"]),
+]
+PREFIX_HARNESSES = [
+    (h_dec_prefix_varint, "dec", ["prefix.varint"]),
+    (h_dec_prefix_fixedwidth, "dec", ["prefix.read_boolean", "prefix.read_float", "prefix.read_double"]),
+    (h_dec_prefix_bytes, "dec", ["prefix.read_bytes", "prefix.read_utf8", "prefix.read_fixed"]),
+]
